@@ -941,3 +941,33 @@ func init() {
 		})
 	})
 }
+
+// sort.Slice / sort.SliceStable: the library goes through reflectlite's swapper;
+// here a stable insertion sort over the engine's slice cells, calling the real
+// `less` closure (each comparison on symbolic data is a branch decision).
+func init() {
+	extraIntrinsics = append(extraIntrinsics, func(p *Program) {
+		sortSlice := func(ex *Exec, fr *Frame, args []Value) Value {
+			x, ok := args[0].(Iface)
+			if !ok || x.t == nil {
+				ex.throwMsg(fr, fr.callPos, "sort.Slice of nil")
+			}
+			sl, ok := x.v.([]Value)
+			if !ok {
+				ex.unsupported("sort.Slice of %T", x.v)
+			}
+			for i := 1; i < len(sl); i++ {
+				for j := i; j > 0; j-- {
+					r := ex.call(fr, fr.callPos, args[1], []Value{mkConst(64, uint64(j)), mkConst(64, uint64(j-1))})
+					if !ex.branch(r.(*Term), "sort.Slice less") {
+						break
+					}
+					sl[j], sl[j-1] = sl[j-1], sl[j]
+				}
+			}
+			return nil
+		}
+		p.reg("sort.Slice", sortSlice)
+		p.reg("sort.SliceStable", sortSlice)
+	})
+}
